@@ -45,13 +45,23 @@ def run(ctx):
         for blk, i, st in trt:
             ctx.requires("C01.G.default-precedence", f, blk, "Trait{span}", [r"is_some\(self\.default\)=False", r"is_some\(a2\.default\)=False", r"is_some\(self\.skip\)=True", r"\(self\.skip as Some\)\.0=True"])
         # the field's own default is kept when present
-        kept = False
-        for blk, i, st in f.stmts():
-            if st["k"] == "assign" and st["r"]["k"] == "use" and ctx.expr(f, st["r"]) == "self.default" and not st["p"]["proj"]:
-                d = ctx.pc_strs(f, blk)
-                if d and all(ctx._sat(x, r"is_some\(self\.default\)=True") for x in d):
-                    kept = True
-        ctx.ob("C01.G.own-default-kept", f.key, "self.default moved through under is_some(self.default)", kept, "the (_, true, _) arm must yield self.default")
+        # whatever the layout (a tuple match with a pass-through arm, or a guard clause that returns
+        # early): no write to self.default that can run while it is Some stores anything else
+        kept = True
+        detail = []
+        writes = ctx.find_field_assigns(f, "default", 1)
+        for blk, i, st in writes:
+            for d in ctx.pc_strs(f, blk) or [set()]:
+                for conds, v in resalg.expr_cases(ctx, f, st["r"]):
+                    both = set(d) | set(conds)
+                    if "is_some(self.default)=True" in both and "is_some(self.default)=False" in both:
+                        continue
+                    if "is_some(self.default)=False" in both:
+                        continue
+                    detail.append((sorted(both), v[:100]))
+                    if v not in ("self.default", "core::option::Option::Some{(self.default as Some).0}"):
+                        kept = False
+        ctx.ob("C01.G.own-default-kept", f.key, "a declared default is never overwritten", kept and bool(writes), "writes that can run while self.default is Some: %s" % detail)
         nones = [(blk, st) for blk, i, st in ctx.find_aggregates(f, r"^core::option::Option$", "None")]
         for blk, st in nones:
             ctx.requires("C01.G.no-default", f, blk, "None", [r"is_some\(self\.default\)=False", r"is_some\(a2\.default\)=False"])
